@@ -119,6 +119,18 @@ def infl_depth(A, B, rec):
     return RR - dc
 
 
+_DECOY = []
+
+
+def decoy_pair():
+    if not _DECOY:
+        from distance3d import colliders as C
+        T1, T2 = np.eye(4), np.eye(4)
+        T1[:3, 3] = [40.0, -30.0, 20.0]; T2[:3, 3] = [40.6, -29.7, 20.4]
+        _DECOY.extend([C.Box(T1, np.array([1.0, 2.0, 1.5])), C.Ellipsoid(T2, np.array([0.7, 1.1, 0.9]))])
+    return _DECOY[0], _DECOY[1]
+
+
 def measure_epa(rid, A, B, lift, clsA, clsB):
     from distance3d import gjk, epa
     s = lift[0]
@@ -136,6 +148,9 @@ def measure_epa(rid, A, B, lift, clsA, clsB):
             rec["simplexRows"] = int(NW._OBS["rows"])
             if d > 0.0:
                 return None
+            if int(rid[1:]) % 2 == 0:
+                # two-pass narrow phase: the distance query of another pair runs before this pair's simplex is handed to EPA
+                gjk.gjk_distance_jolt(*decoy_pair(), max_distance_squared=float("inf"))
             mtv, _, ok = epa.epa(Y, ca, cb)
     except NW.Hang:
         rec["exc"] = "Hang"
@@ -272,7 +287,8 @@ def gen(tier, seed, algo):
                   (NW.Body({"kind": "hull", "V": S.HULLS["cube"]}, [[0, 0, -1], [0, -1, 0], [-1, 0, 0]], [1, 3, -3]), NW.Body({"kind": "capsule", "r": 2, "h": 2}, S.CUBE[0][0], [2, 4, -3]), "ConvexHullVertices", "Capsule")]
     else:
         pinned = [(NW.Body(OCT, [[0, 0, -1], [0, -1, 0], [-1, 0, 0]], [0, -2, 3]), NW.Body({"kind": "box", "a": 8, "b": 2, "c": 2}, [[0, 1, 0], [0, 0, 1], [1, 0, 0]], [1, 1, -1]), "MeshGraph", "Box"),
-                  (NW.Body({"kind": "cylinder", "r": 3, "h": 2}, [[0, 0, 1], [1, 0, 0], [0, 1, 0]], [-3, 3, 3]), NW.Body({"kind": "sphere", "r": 2}, [[0, 0, 1], [1, 0, 0], [0, 1, 0]], [-3, 3, 3], 2), "Cylinder", "Sphere")]
+                  (NW.Body({"kind": "cylinder", "r": 3, "h": 2}, [[0, 0, 1], [1, 0, 0], [0, 1, 0]], [-3, 3, 3]), NW.Body({"kind": "sphere", "r": 2}, [[0, 0, 1], [1, 0, 0], [0, 1, 0]], [-3, 3, 3], 2), "Cylinder", "Sphere"),
+                  (NW.Body({"kind": "disk", "r": 3}, [[1, 0, 0], [0, -1, 0], [0, 0, -1]], [1, -3, -2]), NW.Body({"kind": "cylinder", "r": 1, "h": 8}, [[0, 1, 0], [1, 0, 0], [0, 0, -1]], [3, -3, 0], 2), "Disk", "Cylinder")]
     for X, Y, clsX, clsY in pinned:
         n += 1
         rid = f"e{n}"
@@ -297,6 +313,9 @@ def run_algo(pid, algo, tier, seed):
         if "ZONE_CoincidentCentres" in clauses:
             clauses = clauses - {"ZONE_CoincidentCentres"}
             key = "mpr:coincident-centres"
+        elif "ZONE_Grazing" in clauses:
+            clauses = clauses - {"ZONE_Grazing"}
+            key = "mpr:grazing-contact-position"
         elif "ZONE_SeparatingNotMinimal" in clauses:
             clauses = clauses - {"ZONE_SeparatingNotMinimal"}
             key = "epa:separating-not-minimal"
